@@ -449,8 +449,9 @@ def run(ctx):
   try:
     # all TLC work is queued now; EX_*.cfg = model check + graph export in one run, MC_*.cfg = model check only
     mcs = [("MCPortView", "MC_hist3.cfg", PORT_ACTIONS)]
-    pgraphs = [("EX_edges_P3.cfg", 3), ("EX_edges_P2s.cfg", 2)]
-    sgraphs = ["EX_S1_flow.cfg", "EX_S3_flow.cfg"] + ["EX_S2_%s.cfg" % t for t in types]
+    pgraphs = [("EX_edges_P3q.cfg" if quick else "EX_edges_P3.cfg", 3), ("EX_edges_P2s.cfg", 2)]
+    sgraphs = ["EX_S1_flow.cfg", "EX_S3q_flow.cfg" if quick else "EX_S3_flow.cfg"]
+    sgraphs += ["EX_S2_%s.cfg" % t for t in types]
     if not quick:
       mcs += [("MCPortView", "MC_P2w.cfg", PORT_ACTIONS), ("MCPortView", "MC_hist4.cfg", PORT_ACTIONS),
               ("MCStatsAgg", "MC_S3w_flow.cfg", STAT_ACTIONS)]
